@@ -156,3 +156,6 @@ add('TAGFILTER',
 # X-SUBSLICE: Vec indexed by a range
 add('SUBSLICE', Rule('X-SUBSLICE', '&$v:p[$a:e..($b:e)]', 'subslice(&$v, $a, $b)'),
     Rule('X-SUBSLICE', '&$v:p[$a:e..$b:e]', 'subslice(&$v, $a, $b)'))
+
+# X-SLICEPREFIX: `&W.slice()[..n]`
+add('SLICEPREFIX', Rule('X-SLICEPREFIX', '&$w:i.slice()[..$n:e]', 'slice_prefix($w.slice(), $n)'))
